@@ -23,6 +23,10 @@ import Mistletoe.Props.C19_EndToEnd
 import Mistletoe.Props.C06_Html
 import Mistletoe.Props.C09_Setext
 import Mistletoe.Props.C09_Emph
+import Mistletoe.Props.C03_Tables
+import Mistletoe.Props.C07_DefLine
+import Mistletoe.Props.C14_Cont
+import Mistletoe.Props.C10_NoRebreak
 import Driver.Ast
 open Lean Mistletoe
 
@@ -39,6 +43,10 @@ def c14Hyps (j : Json) : Except String Json := do
                     ("inertBody3", Json.bool (Mistletoe.InertInline2.inertBody3 (Document.joinNl (lines.map Py.strip)))),
                     ("inertBody4", Json.bool (Mistletoe.InertInline3.inertBody4 (Document.joinNl (lines.map Py.strip)))),
                     ("inertBody5", Json.bool (Mistletoe.InertInline5.inertBody5 (Document.joinNl (lines.map Py.strip)))),
+                    -- first line `inertLine`, later lines only `inertCont` (Props/C14_Cont.lean)
+                    ("inertLineCont", Json.bool (match lines with
+                      | [] => false
+                      | l0 :: tl => Props.C14.inertLine l0 && tl.all Props.C14.inertCont)),
                     ("text", Driver.str (Document.joinNl (lines.map Py.strip)))])
 
 /-- a tree of the C03 fragment from JSON: {"k":"para","lines":[…]} | {"k":"heading","level":n,"text":…,"line":…}
@@ -369,14 +377,94 @@ def c09Emph (j : Json) : Except String Json := do
     let ok := it.ok && rest.all (·.ok) && MdRoundEmph.adjOk3 it rest && (k == 0 || lines.all (fun l => !l.contains '\t'))
     pure (Json.mkObj [("ok", Json.bool ok), ("text", Driver.str (MdRound.qStrs k lines).flatten)])
 
+/-- a row of a table as written: {"lead":b,"trail":b,"cells":[…]} -/
+def rowOf (j : Json) : Except String ComposeT.Row := do
+  pure { lead := (← j.getObjValAs? Bool "lead"), trail := (← j.getObjValAs? Bool "trail"),
+         cells := (← (← Driver.getArr j "cells").toList.mapM Driver.asStr) }
+
+/-- a tree of the C03 fragment with tables and indented code: the kinds of `tree3Of` plus
+    {"k":"table","hdr":row,"del":{"lead","trail","cells":[[padL,cl,dashes,cr,padR]…]},"rows":[row…]} and {"k":"icode","lines":[…]} -/
+partial def tree4Of (j : Json) : Except String ComposeT.T4 := do
+  let k ← j.getObjValAs? String "k"
+  match k with
+  | "para" => do pure (.para (← (← Driver.getArr j "lines").toList.mapM Driver.asStr))
+  | "heading" => do pure (.heading (← j.getObjValAs? Nat "level") (← Driver.getStr j "text") (← Driver.getStr j "line"))
+  | "hr" => do pure (.hr (← Driver.getStr j "line"))
+  | "quote" => do
+    pure (.quote (← j.getObjValAs? Bool "bare") (← (← Driver.getArr j "kids").toList.mapM tree4Of))
+  | "list" => do
+    let mk ← match (← Driver.getStr j "marker") with
+      | [c] => pure c
+      | _ => throw "marker: one character"
+    let items ← (← Driver.getArr j "items").toList.mapM (fun it => do (← Driver.asArr it).toList.mapM tree4Of)
+    pure (.list (← j.getObjValAs? Bool "ordered") (← j.getObjValAs? Nat "start") mk (← j.getObjValAs? Nat "pad")
+      (← j.getObjValAs? Bool "loose") items)
+  | "fence" => do
+    pure (.fence (← j.getObjValAs? Nat "ind") (← Driver.getStr j "delim") (← Driver.getStr j "info")
+      (← (← Driver.getArr j "body").toList.mapM Driver.asStr) (← Driver.getStr j "close"))
+  | "setext" => do
+    pure (.setext (← j.getObjValAs? Nat "level") (← (← Driver.getArr j "lines").toList.mapM Driver.asStr) (← Driver.getStr j "ul"))
+  | "table" => do
+    let dj ← j.getObjVal? "del"
+    let dcells ← (← Driver.getArr dj "cells").toList.mapM (fun c => do
+      match (← Driver.asArr c).toList with
+      | [a, b, d, e, f] => do
+        pure ({ padL := (← a.getNat?), cl := (← b.getBool?), dashes := (← d.getNat?), cr := (← e.getBool?), padR := (← f.getNat?) } : ComposeT.DCell)
+      | _ => throw "delimiter cell: [padL, cl, dashes, cr, padR]")
+    let del : ComposeT.DRow := { lead := (← dj.getObjValAs? Bool "lead"), trail := (← dj.getObjValAs? Bool "trail"), cells := dcells }
+    pure (.leaf (.table (← rowOf (← j.getObjVal? "hdr")) del (← (← Driver.getArr j "rows").toList.mapM rowOf)))
+  | "icode" => do pure (.leaf (.icode (← (← Driver.getArr j "lines").toList.mapM Driver.asStr)))
+  | k => throw s!"tree kind {k}"
+
+/-- op "c03.fragment4": {"forest": [tree], "dq", "sq"} → the hypothesis `T4.oks` of `C03_table_html_partial`, the text the
+    writer produces and the HTML the theorem concludes -/
+def c03Fragment4 (j : Json) : Except String Json := do
+  let ts ← (← Driver.getArr j "forest").toList.mapM tree4Of
+  let o : Html.Opts := { dq := (j.getObjValAs? Bool "dq").toOption.getD false, sq := (j.getObjValAs? Bool "sq").toOption.getD false }
+  pure (Json.mkObj [("ok", Json.bool (ComposeT.T4.oks ts && !ts.isEmpty)),
+                    ("text", Driver.str (ComposeT.writes4 ts).flatten),
+                    ("html", Driver.str (ComposeT.htmlOf4 o ts))])
+
+/-- op "c07.defs": {"defs":[{"lbl","dest","title"?}…] (non-empty), "pre","lbl","post"} → the hypotheses of `C07_defs_document`
+    (all decidable, NO assumption about the block phase), the document text and the HTML the theorem concludes -/
+def c07Defs (j : Json) : Except String Json := do
+  let ds ← (← Driver.getArr j "defs").toList.mapM (fun d => do
+    let title ← match d.getObjVal? "title" with
+      | .ok (Json.str t) => pure (some t.toList)
+      | _ => pure none
+    pure ({ lbl := (← Driver.getStr d "lbl"), dest := (← Driver.getStr d "dest"), title := title } : DefLine.DefSpec))
+  let pre ← Driver.getStr j "pre"
+  let lbl ← Driver.getStr j "lbl"
+  let post ← Driver.getStr j "post"
+  match ds with
+  | [] => throw "defs: empty"
+  | _ =>
+    let ok := ds.all (·.ok) && ds.all (fun d => match d.title with | some t => !t.contains '&' | none => true)
+      && pre.all RefResolve.textCh && lbl.all RefResolve.textCh && !Py.isBlank lbl && post.all RefResolve.textCh && post.head? != some '('
+      && (match pre.head? with | some c => !pyIsSpace c | none => true)
+      && (match post.getLast? with | some c => !pyIsSpace c | none => true)
+      && (pre ++ lbl ++ post).all (fun c => !isLineSep c)
+      && Props.C14.inertLine (DefLine.refLine pre lbl post)
+    pure (Json.mkObj [("ok", Json.bool ok), ("text", Driver.str (DefLine.defsText ds pre lbl post)),
+                      ("html", Driver.str (DefLine.refHtml ds pre lbl post))])
+
+/-- op "c10.rigid": {"doc": exported token tree} → the hypothesis `rigidDeepAll d.kids` of `C10_not_rebroken_document`, evaluated on
+    a REAL token tree as exported by harness/export.py -/
+def c10Rigid (j : Json) : Except String Json := do
+  let d ← Driver.Ast.docOf (← j.getObjVal? "doc")
+  pure (Json.mkObj [("rigid", Json.bool (Proofs.NoRebreak.rigidDeepAll d.kids))])
+
 def dispatch (op : String) (j : Json) : Except String Json :=
   match op with
   | "c14.hyps" => c14Hyps j
   | "c03.fragment" => c03Fragment j
   | "c03.fragment2" => c03Fragment2 j
   | "c03.fragment3" => c03Fragment3 j
+  | "c03.fragment4" => c03Fragment4 j
+  | "c07.defs" => c07Defs j
   | "c07.resolve" => c07Resolve j
   | "c10.lists" => c10Lists j
+  | "c10.rigid" => c10Rigid j
   | "c09.fragment" => c09Fragment j
   | "c09.fragment2" => c09Fragment2 j
   | "c09.fragment3" => c09Fragment3 j
